@@ -7,7 +7,8 @@
 (* MaxSteps steps, unequal durations, two parameters, repeated values),    *)
 (* then either simulate_protocol (n points per step) or a requested grid   *)
 (* for simulate_protocol_time_course (points before the start, on it, on   *)
-(* boundaries, between them, beyond the end; absolute or relative), then   *)
+(* boundaries, just after them, between them, beyond the end; absolute or  *)
+(* relative; offsets written as 1000 * ticks + epsilons), then             *)
 (* one more simulate call (the last step's values must stay in force).     *)
 (* Every effect is Eff of Simulator.tla.  Before the protocol call is      *)
 (* applied, the declarative statement of C14 (RefusalOf, PointsOf,         *)
@@ -22,7 +23,9 @@ CONSTANTS
     Durs,        \* step durations in ticks
     ParIdx,      \* indices into Pars
     MaxPts,      \* requested grid size (1..MaxPts)
-    Lead         \* grid candidates: start - Lead .. end + 2
+    Lead,        \* grid candidates: start - Lead .. end + 2 (whole ticks) ...
+    EpsPts,      \* ... and, when TRUE, the points just after the start and just after every step boundary
+    ReadBefore   \* TRUE: on a continued simulator the result may be read (views computed) before the protocol
 
 VARIABLE b     \* builder: [phase, steps, pts]
 
@@ -31,7 +34,8 @@ Pars == <<PA, PB, PC, P0>>
 PrefixMenu(s) ==
     LET t == s.now
     IN << OpSim(TAdd(t, 3), 1), OpSim(TAdd(t, 2), 2), OpOv(10), OpUpd("k", IF s.p.kk = 128 THEN 64 ELSE 128),
-          OpTc(Rel(t, <<1, 4>>)), OpSs(T(s.nss + 1, 0)), OpClear, OpProto(Proto2, 1), OpUpd("kin", 32) >>
+          OpTc(Rel(t, <<1, 4>>)), OpSs(T(s.nss + 1, 0)), OpClear, OpProto(Proto2, 1), OpUpd("kin", 32),
+          OpTc(<<TEps(t), TAdd(t, 3)>>) >>
 
 Total(steps) == Cum(steps, Len(steps))
 AllEven(steps) == \A i \in 1..Len(steps) : steps[i].d % 2 = 0
@@ -39,7 +43,7 @@ AllEven(steps) == \A i \in 1..Len(steps) : steps[i].d % 2 = 0
 Commits(s, bb) ==
     IF bb.pts = <<>>
     THEN {OpProto(bb.steps, 1)} \cup (IF AllEven(bb.steps) THEN {OpProto(bb.steps, 2)} ELSE {})
-    ELSE {OpPtcRel(bb.steps, bb.pts), OpPtcAbs(bb.steps, [j \in 1..Len(bb.pts) |-> TAdd(s.now, bb.pts[j])])}
+    ELSE {OpPtcRel(bb.steps, bb.pts), OpPtcAbs(bb.steps, [j \in 1..Len(bb.pts) |-> TAddV(s.now, bb.pts[j])])}
 
 Record(op, r) == Append(h, [op |-> op, raised |-> r.raised, st |-> r.st])
 
@@ -53,6 +57,10 @@ AddPrefix == /\ b.phase = "prefix" /\ Len(h) < MaxPrefix
 EndPrefix == /\ b.phase = "prefix"
              /\ b' = [b EXCEPT !.phase = "steps"]
              /\ UNCHANGED <<st, h>>
+\* the result obtained so far is read (its views are computed) before the protocol continues it
+EndPrefixRead == /\ b.phase = "prefix" /\ ReadBefore /\ st.segs # <<>>
+                 /\ LET r == Eff(OpRead, st) IN st' = r.st /\ h' = Record(OpRead, r)
+                 /\ b' = [b EXCEPT !.phase = "steps"]
 AddStep == /\ b.phase = "steps" /\ Len(b.steps) < MaxSteps
            /\ \E d \in Durs, i \in ParIdx : b' = [b EXCEPT !.steps = Append(@, StepRec(d, Pars[i]))]
            /\ UNCHANGED <<st, h>>
@@ -60,9 +68,10 @@ EndSteps == /\ b.phase = "steps" /\ Len(b.steps) >= 1
             /\ b' = [b EXCEPT !.phase = "pts"]
             /\ UNCHANGED <<st, h>>
 AddPoint == /\ b.phase = "pts" /\ Len(b.pts) < MaxPts
-            /\ \E o \in (0 - Lead)..(Total(b.steps) + 2) :
-                  /\ (IF b.pts = <<>> THEN TRUE ELSE b.pts[Len(b.pts)] < o)
-                  /\ b' = [b EXCEPT !.pts = Append(@, o)]
+            /\ \E v \in {1000 * o : o \in (0 - Lead)..(Total(b.steps) + 2)}
+                        \cup (IF EpsPts THEN {1000 * Cum(b.steps, i) + 1 : i \in 0..Len(b.steps)} ELSE {}) :
+                  /\ (IF b.pts = <<>> THEN TRUE ELSE b.pts[Len(b.pts)] < v)
+                  /\ b' = [b EXCEPT !.pts = Append(@, v)]
             /\ UNCHANGED <<st, h>>
 Commit == /\ b.phase = "pts"
           /\ \E op \in Commits(st, b) : LET r == Eff(op, st)
@@ -74,7 +83,7 @@ Post == /\ b.phase = "post"
            IN st' = r.st /\ h' = Record(op, r)
         /\ b' = [b EXCEPT !.phase = "end"]
 
-PNext == AddPrefix \/ EndPrefix \/ AddStep \/ EndSteps \/ AddPoint \/ Commit \/ Post
+PNext == AddPrefix \/ EndPrefix \/ EndPrefixRead \/ AddStep \/ EndSteps \/ AddPoint \/ Commit \/ Post
 
 PEmit == (EmitOn /\ b.phase = "end") => PrintT("@J@" \o ToJson(h) \o "@E@")
 
